@@ -5,7 +5,12 @@
      slices/maps/`string` fields are the integer/bool/string the text denotes);
    - absent + default: the parsed default; absent + optional: zero; absent + required: no value at all
      (only a struct none of whose fields is required may be filled from the empty object);
-   - options= and range= are respected by every present value.
+   - options= and range= are respected by every present value: a scalar, every element of a slice, every value
+     of a map, and by the declared default (the property text makes no exception for kinds or positions);
+   - optional=dep / optional=!dep: the field's optional flag is the resolved one (Model.resolve_opts), and a
+     both-or-neither / either-or mismatch admits no value at all.
+   `tol` names ONE clause of the text that the code is known not to enforce (KNOWN_FINDINGS classes); `agrees_t tol`
+   tolerates exactly that clause.  The property is `agrees = agrees_t TNone`.
    (the struct case is also available as `field_agrees`, see agrees_struct). *)
 From God Require Import Base.Prelude C05.Model.
 From Coq Require Import String Ascii.
@@ -36,7 +41,7 @@ Fixpoint val_eqb (a b : val) {struct a} : bool :=
 
 Definition text_of (d : jv) : option string :=
   match d with
-  | JNum raw _ => Some raw | JStr s => Some s
+  | JNum raw _ => Some raw | JStr s _ => Some s
   | JBool b => Some (if b then "true" else "false")%string
   | _ => None
   end.
@@ -46,29 +51,29 @@ Definition leaf_agrees (k : kind) (d : jv) (v : val) : bool :=
   match k, v with
   | KInt w, VInt z =>
       match d with
-      | JNum s _ | JStr s => match parse_signed s with Some z' => (z =? z') && fits_int w z | None => false end
+      | JNum s _ | JStr s _ => match parse_signed s with Some z' => (z =? z') && fits_int w z | None => false end
       | _ => false end
   | KUint w, VInt z =>
       match d with
-      | JNum s _ | JStr s => match parse_signed s with Some z' => (z =? z') && fits_uint w z | None => false end
+      | JNum s _ | JStr s _ => match parse_signed s with Some z' => (z =? z') && fits_uint w z | None => false end
       | _ => false end
   | KDur, VInt z =>
       fits_int W64 z &&
       match d with
       | JNum s _ => match parse_signed s with Some z' => z =? z' | None => false end
-      | JStr s => (match parse_dur s with Some z' => z =? z' | None => false end) ||
+      | JStr s _ => (match parse_dur s with Some z' => z =? z' | None => false end) ||
                   (match parse_signed s with Some z' => z =? z' | None => false end)
       | _ => false end
   | KBool, VBool b =>
       match d with
       | JBool b' => Bool.eqb b b'
-      | JNum s _ | JStr s => match parse_bool s with Some b' => Bool.eqb b b' | None => false end
+      | JNum s _ | JStr s _ => match parse_bool s with Some b' => Bool.eqb b b' | None => false end
       | _ => false end
-  | KStr, VStr s => match d with JStr s' | JNum s' _ => String.eqb s s' | _ => false end
+  | KStr, VStr s => match d with JStr s' _ | JNum s' _ => String.eqb s s' | _ => false end
   | (KF32 | KF64), VFloat raw c =>
       match d with
       | JNum raw' fi => fi_fits64 fi && (if c && fi_canon fi then String.eqb raw raw' else true)
-      | JStr _ => true
+      | JStr _ _ => true
       | _ => false end
   | _, _ => false
   end.
@@ -76,99 +81,151 @@ Definition leaf_agrees (k : kind) (d : jv) (v : val) : bool :=
 Definition unwrap (t : ty) (v : val) : option val :=
   if is_ptr t then match v with VPtr v' => Some v' | _ => None end else Some v.
 
-Definition value_in_range (o : fopts) (v : val) : bool :=
-  match o_range o with
-  | None => true
-  | Some r => match v with VInt z | VPtr (VInt z) => in_range r z | _ => false end
+(* range= on the value that was stored: a number, or every element / map value *)
+Fixpoint val_in_range (r : range) (v : val) {struct v} : bool :=
+  match v with
+  | VInt z => in_range r z
+  | VPtr v' => val_in_range r v'
+  | VSlice l => forallb (fun x => val_in_range r x) l
+  | VMap m => forallb (fun kv => val_in_range r (snd kv)) m
+  | VNilPtr | VNilSlice | VNilMap => true
+  | _ => false
   end.
+Definition value_in_range (o : fopts) (v : val) : bool :=
+  match o_range o with None => true | Some r => val_in_range r v end.
 
-Definition value_in_options (o : fopts) (d : jv) : bool :=
-  match o_options o with
-  | [] => true
+(* options= on the document value: a scalar's text, or every (non-null) element / map value *)
+Fixpoint doc_in_options (o : fopts) (d : jv) {struct d} : bool :=
+  match d with
+  | JNull => true
+  | JArr l => forallb (fun x => doc_in_options o x) l
+  | JObj m => forallb (fun kv => doc_in_options o (snd kv)) m
   | _ => match text_of d with Some s => in_options o s | None => false end
   end.
+Definition value_in_options (o : fopts) (d : jv) : bool :=
+  match o_options o with [] => true | _ => doc_in_options o d end.
 
-Definition has_key (k : string) (m : obj) : bool := match olookup k m with Some _ => true | None => false end.
+Inductive tolerance := TNone | TDur | TSliceElem | TMapElem | TDefault.
+Definition tol_eqb (a b : tolerance) : bool :=
+  match a, b with TNone, TNone | TDur, TDur | TSliceElem, TSliceElem | TMapElem, TMapElem | TDefault, TDefault => true | _, _ => false end.
 
-Fixpoint agrees (t : ty) (d : jv) (v : val) {struct t} : bool :=
+(* the clause class a present value's options=/range= check belongs to *)
+Definition constraint_class (t : ty) (o : fopts) : tolerance :=
+  match deref t with
+  | Prim KDur => if o_string o then TNone else TDur
+  | Slice _ => TSliceElem
+  | Map _ => TMapElem
+  | _ => TNone
+  end.
+
+Section Agrees.
+  Variable tol : tolerance.
+
+  Fixpoint agrees_t (t : ty) (d : jv) (v : val) {struct t} : bool :=
     match t with
     | Prim k => leaf_agrees k d v
-    | Ptr t' => match v with VPtr v' => agrees t' d v' | _ => false end
+    | Ptr t' => match v with VPtr v' => agrees_t t' d v' | _ => false end
     | Slice et =>
-        match d, v with
+        (* a string holding a JSON array is read as that array (fillSliceFromString); the text null as [] *)
+        let d' := match d with JStr _ (Some JNull) => JArr [] | JStr _ (Some j) => j | _ => d end in
+        match d', v with
         | JArr [], VSlice [] => true
         | JArr l, VSlice vs =>
             negb (forallb is_null l) &&
-            all2 (fun x w => if is_null x then val_eqb w (zero_val et) else agrees et x w) l vs
+            all2 (fun x w => if is_null x then val_eqb w (zero_val et) else agrees_t et x w) l vs
         | JArr (x :: l), VNilSlice => forallb is_null (x :: l)
         | _, _ => false
         end
     | Map et =>
         match d, v with
-        | JObj m, VMap l => all2 (fun p q => String.eqb (fst p) (fst q) && agrees et (snd p) (snd q)) m l
+        | JObj m, VMap l => all2 (fun p q => String.eqb (fst p) (fst q) && agrees_t et (snd p) (snd q)) m l
         | _, _ => false
         end
     | Struct fs =>
         match d, v with
         | JObj m, VStruct vs =>
             all2 (fun f w =>
-              let ft := f_ty f in let o := f_opts f in
-              if f_anon f then
-                (* embedded struct: filled from the same object, not from a wrapped key *)
-                negb (has_key (f_key f) m) &&
-                ((o_optional o && val_eqb w (zero_val ft)) ||
-                 match unwrap ft w with Some w' => agrees (deref ft) (JObj m) w' | None => false end)
-              else
-                match olookup (f_key f) m with
-                | Some JNull => o_optional o && val_eqb w (zero_val ft)
-                | Some x => agrees ft x w && value_in_options o x && value_in_range o w
-                | None =>
-                    match o_default o with
-                    | Some dv =>
-                        match deref ft, unwrap ft w with
-                        | Prim KDur, Some (VInt z) => match parse_dur dv with Some z' => z =? z' | None => false end
-                        | Prim k, Some w' => leaf_agrees k (JStr dv) w'
-                        | _, _ => false
-                        end
-                    | None =>
-                        if o_optional o then val_eqb w (zero_val ft)
-                        else match deref ft, unwrap ft w with
-                             | Struct sub, Some w' => negb (ty_required (deref ft)) && agrees (deref ft) (JObj []) w'
-                             | _, _ => false          (* required and absent: no value is acceptable *)
-                             end
-                    end
-                end) fs vs
+              let ft := f_ty f in
+              match resolve_opts (f_opts f) (f_key f) m with
+              | Ok o =>
+                if f_anon f then
+                  (* embedded struct: filled from the same object, not from a wrapped key *)
+                  negb (has_key (f_key f) m) &&
+                  ((o_optional o && val_eqb w (zero_val ft)) ||
+                   match unwrap ft w with Some w' => agrees_t (deref ft) (JObj m) w' | None => false end)
+                else
+                  match olookup (f_key f) m with
+                  | Some JNull => o_optional o && val_eqb w (zero_val ft)
+                  | Some x =>
+                      agrees_t ft x w &&
+                      ((negb (tol_eqb tol TNone) && tol_eqb tol (constraint_class ft o)) ||
+                       (value_in_options o x && value_in_range o w))
+                  | None =>
+                      match o_default o with
+                      | Some dv =>
+                          match deref ft, unwrap ft w with
+                          | Prim KDur, Some (VInt z) => match parse_dur dv with Some z' => z =? z' | None => false end
+                          | Prim k, Some w' => leaf_agrees k (JStr dv None) w'
+                          | _, _ => false
+                          end &&
+                          (tol_eqb tol TDefault || (in_options o dv && value_in_range o w))
+                      | None =>
+                          if o_optional o then val_eqb w (zero_val ft)
+                          else match deref ft, unwrap ft w with
+                               | Struct sub, Some w' => negb (ty_required (deref ft)) && agrees_t (deref ft) (JObj []) w'
+                               | _, _ => false          (* required and absent: no value is acceptable *)
+                               end
+                      end
+                  end
+              | _ => false                                (* optional=dep mismatch: no value is acceptable *)
+              end) fs vs
         | _, _ => false
         end
     end.
 
-(* one field of a struct against the object the struct is filled from (the body of the Struct case) *)
-Definition field_agrees (f : field) (m : obj) (w : val) : bool :=
-  let ft := f_ty f in let o := f_opts f in
-  if f_anon f then
-    negb (has_key (f_key f) m) &&
-    ((o_optional o && val_eqb w (zero_val ft)) ||
-     match unwrap ft w with Some w' => agrees (deref ft) (JObj m) w' | None => false end)
-  else
-    match olookup (f_key f) m with
-    | Some JNull => o_optional o && val_eqb w (zero_val ft)
-    | Some x => agrees ft x w && value_in_options o x && value_in_range o w
-    | None =>
-        match o_default o with
-        | Some dv =>
-            match deref ft, unwrap ft w with
-            | Prim KDur, Some (VInt z) => match parse_dur dv with Some z' => z =? z' | None => false end
-            | Prim k, Some w' => leaf_agrees k (JStr dv) w'
-            | _, _ => false
-            end
+  (* one field of a struct against the object the struct is filled from (the body of the Struct case) *)
+  Definition field_agrees_t (f : field) (m : obj) (w : val) : bool :=
+    let ft := f_ty f in
+    match resolve_opts (f_opts f) (f_key f) m with
+    | Ok o =>
+      if f_anon f then
+        negb (has_key (f_key f) m) &&
+        ((o_optional o && val_eqb w (zero_val ft)) ||
+         match unwrap ft w with Some w' => agrees_t (deref ft) (JObj m) w' | None => false end)
+      else
+        match olookup (f_key f) m with
+        | Some JNull => o_optional o && val_eqb w (zero_val ft)
+        | Some x =>
+            agrees_t ft x w &&
+            ((negb (tol_eqb tol TNone) && tol_eqb tol (constraint_class ft o)) ||
+             (value_in_options o x && value_in_range o w))
         | None =>
-            if o_optional o then val_eqb w (zero_val ft)
-            else match deref ft, unwrap ft w with
-                 | Struct sub, Some w' => negb (ty_required (deref ft)) && agrees (deref ft) (JObj []) w'
-                 | _, _ => false
-                 end
+            match o_default o with
+            | Some dv =>
+                match deref ft, unwrap ft w with
+                | Prim KDur, Some (VInt z) => match parse_dur dv with Some z' => z =? z' | None => false end
+                | Prim k, Some w' => leaf_agrees k (JStr dv None) w'
+                | _, _ => false
+                end &&
+                (tol_eqb tol TDefault || (in_options o dv && value_in_range o w))
+            | None =>
+                if o_optional o then val_eqb w (zero_val ft)
+                else match deref ft, unwrap ft w with
+                     | Struct sub, Some w' => negb (ty_required (deref ft)) && agrees_t (deref ft) (JObj []) w'
+                     | _, _ => false
+                     end
+            end
         end
+    | _ => false
     end.
 
+  Lemma agrees_struct_t fs m vs :
+    agrees_t (Struct fs) (JObj m) (VStruct vs) = all2 (fun f w => field_agrees_t f m w) fs vs.
+  Proof. reflexivity. Qed.
+End Agrees.
+
+(* the property *)
+Definition agrees := agrees_t TNone.
+Definition field_agrees := field_agrees_t TNone.
 Lemma agrees_struct fs m vs : agrees (Struct fs) (JObj m) (VStruct vs) = all2 (fun f w => field_agrees f m w) fs vs.
 Proof. reflexivity. Qed.
